@@ -149,6 +149,9 @@ def replay_spec(ob, args):
 def run_property(prop, tier='quick', seed=0, budget=None, only=None, jobs=None, verbose=False):
     t_start = time.time()
     os.makedirs(REPLAYS, exist_ok=True)
+    for _f in os.listdir(REPLAYS):
+        if _f.startswith(prop + '-'):
+            os.unlink(os.path.join(REPLAYS, _f))
     nproc = jobs or int(os.environ.get('VF_JOBS', '0')) or (os.cpu_count() or 4)
     from vf import loader
     loader.install(symbolic=False)
